@@ -1,9 +1,94 @@
-(* C18 — theorems are added below as the proofs are completed; see DESIGN.md *)
+(* C18 — table and signal windowing utilities are lossless selections.
+   Model: Model/Window.v (binary64 for the limits start*fs / stop*fs; rows carry six sample
+   indices plus an opaque payload X = all feature columns). *)
 From Coq Require Import List Arith Bool ZArith Floats.PrimFloat.
 Import ListNotations.
-From ByC Require Import Base.Result Model.Window.
+From ByC Require Import Base.Result Base.FloatBase Base.FloatFacts Model.Cycles Model.Epoch Model.Window Proofs.Window.
 
-Theorem C18_placeholder_drop_is_split_left : forall (C : Type) (cols : list (bool * C)),
-  drop_samples cols = fst (split_samples cols).
-Proof. reflexivity. Qed.
-Print Assumptions C18_placeholder_drop_is_split_left.
+(* limit_df returns, in order and with unchanged payload, exactly the rows passing the window test,
+   all six sample columns shifted by one and the same offset int(fs*start) (or none) *)
+Theorem C18_limit_df_is_a_filter : forall (X : Type) (rows : list (@wrow X)) fs start stop reset out,
+  limit_df rows fs start stop reset = Ok out ->
+  let off := if reset
+             then F2Z_trunc (fs * match start with Some a => a | None => 0%float end)%float
+             else 0%Z in
+  out = map (fun r => (shift_srow off (fst r), snd r)) (filter (keep_row fs start stop) rows).
+Proof. exact @limit_df_spec. Qed.
+Print Assumptions C18_limit_df_is_a_filter.
+
+Theorem C18_limit_df_uniform_shift : forall (X : Type) (rows : list (@wrow X)) fs start stop reset out,
+  limit_df rows fs start stop reset = Ok out ->
+  let off := limit_offset fs start reset in
+  forall o, In o out ->
+    exists r, In r rows /\ keep_row fs start stop r = true /\ snd o = snd r /\
+      s_center (fst o) = (s_center (fst r) - off)%Z /\
+      s_last (fst o) = (s_last (fst r) - off)%Z /\
+      s_next (fst o) = (s_next (fst r) - off)%Z /\
+      s_zx_rise (fst o) = (s_zx_rise (fst r) - off)%Z /\
+      s_zx_decay (fst o) = (s_zx_decay (fst r) - off)%Z /\
+      s_last_zx (fst o) = (s_last_zx (fst r) - off)%Z.
+Proof. exact @limit_df_uniform_shift. Qed.
+Print Assumptions C18_limit_df_uniform_shift.
+
+(* every cycle entirely inside [start, stop] is kept (either limit optional) ... *)
+Theorem C18_inside_kept : forall (X : Type) fs start stop (r : @wrow X),
+  keep_row fs start stop r = true <->
+  ((match start with Some a => a | None => 0%float end * fs) <=? FloatBase.Z2F (s_last (fst r)))%float = true /\
+  (match stop with
+   | Some b => (FloatBase.Z2F (s_next (fst r)) <=? (b * fs))%float = true
+   | None => True
+   end).
+Proof. exact @keep_row_iff. Qed.
+Print Assumptions C18_inside_kept.
+
+(* ... and no cycle entirely outside it (binary64 order facts; sample indices below 2^53) *)
+Theorem C18_outside_not_kept : forall (X : Type) fs start stop (r : @wrow X),
+  finite (start_or_0 start * fs)%float = true ->
+  (forall b, stop = Some b -> finite (b * fs)%float = true) ->
+  (Z.abs (s_last (fst r)) < 2 ^ 53)%Z -> (Z.abs (s_next (fst r)) < 2 ^ 53)%Z ->
+  (s_last (fst r) < s_next (fst r))%Z ->
+  (FloatBase.Z2F (s_next (fst r)) <? (start_or_0 start * fs))%float = true \/
+  (exists b, stop = Some b /\ ((b * fs) <? FloatBase.Z2F (s_last (fst r)))%float = true) ->
+  keep_row fs start stop r = false.
+Proof. exact @outside_not_kept. Qed.
+Print Assumptions C18_outside_not_kept.
+
+Theorem C18_limit_df_accepts_exactly_valid_limits : forall (X : Type) (rows : list (@wrow X)) fs start stop reset,
+  (exists out, limit_df rows fs start stop reset = Ok out) <->
+  in_range fs 0 infinity = true /\ limits_ok start stop = true.
+Proof. exact @limit_df_ok_iff. Qed.
+Print Assumptions C18_limit_df_accepts_exactly_valid_limits.
+
+(* limit_signal: exactly the samples with start <= t < stop, in order *)
+Theorem C18_limit_signal : forall tv start stop out,
+  limit_signal tv start stop = Ok out ->
+  out = filter (fun x => (match start with Some a => (a <=? fst x)%float | None => true end) &&
+                         (match stop with Some b => (fst x <? b)%float | None => true end)) tv.
+Proof. exact limit_signal_spec. Qed.
+Print Assumptions C18_limit_signal.
+
+(* split / drop: a partition of the columns by the sample_ prefix, columns carried unchanged *)
+Theorem C18_split_samples_partition : forall (C : Type) (cols : list (bool * C)),
+  let '(f, s) := split_samples cols in
+  (forall c, In c cols <-> In c f \/ In c s) /\
+  (forall c, In c f -> fst c = false) /\
+  (forall c, In c s -> fst c = true) /\
+  (length f + length s = length cols)%nat.
+Proof. intros C cols. exact (split_samples_partition cols). Qed.
+Print Assumptions C18_split_samples_partition.
+
+(* flatten: tables concatenated in order; row i of table k carries label k; 2-D lists are row-major *)
+Theorem C18_flatten_rows_carry_their_table_label : forall (R L : Type) (dfs : list (list R)) (labels : list L) out,
+  flatten1 dfs labels = Ok out ->
+  length labels = length dfs /\
+  map fst out = concat dfs /\
+  forall k i d dl, (k < length dfs)%nat -> (i < length (nth k dfs []))%nat ->
+    nth (length (concat (firstn k dfs)) + i)%nat out (d, dl) = (nth i (nth k dfs []) d, nth k labels dl).
+Proof. exact @flatten1_spec. Qed.
+Print Assumptions C18_flatten_rows_carry_their_table_label.
+
+Theorem C18_flatten_2d_is_row_major : forall (R L : Type) (dfs : list (list (list R))) (labels : list L) (n1 : nat),
+  (forall row, In row dfs -> length row = n1) ->
+  flatten2 dfs labels = flatten1 (concat dfs) labels.
+Proof. exact @flatten2_spec. Qed.
+Print Assumptions C18_flatten_2d_is_row_major.
